@@ -16,6 +16,7 @@ CONSTANTS
   MaxTicks = 2
   MaxClears = 1
   MaxWaits = 2
+  MaxDirect = 0
   MaxSetNames = 0
 INVARIANT Emit
 INVARIANT GenInv
